@@ -173,6 +173,13 @@ func run(c *Ctx) {
 		"func f() {\n\tif x {\n\t\t/* a\n\n\t\t   b */\n\t\ty\n\t}\n}", "if a {\n/* one\ntwo\n\nthree */\nb}", "for i = 2 { if i { /*\n * s\n *\n */ i } }"} {
 		one(c, []byte(src), true, &s)
 	}
+	// adjacent literals and operators against sign-leading operands (common.DelicatePrograms, shared with C02): a second
+	// formatting pass must not glue what the first one kept apart
+	dl := DelicatePrograms(c.Thorough())
+	for _, src := range dl {
+		one(c, []byte(src), false, &s)
+	}
+	c.Dist["delicate-literal-and-operator-programs"] = len(dl)
 	n := 1200
 	if c.Thorough() {
 		n = 50000
